@@ -252,10 +252,11 @@ int main(int argc, char** argv) {
     Json js(f);
     js.flush_each = false;
     vh::Rng rng(seed);
+    const int slo = std::atoi(vh::arg(argc, argv, "--slo", "257"));
     if (mode == "fir") {
         run_fir(js, rng, a, b);
         for (long t = 0; t < budget; ++t) {   // sampled large orders
-            const int n = (int)rng.range(257, 2000);
+            const int n = (t % 2) ? (int)rng.range(slo, 2000) : (int)rng.range(slo, std::max(slo, 400));
             run_fir(js, rng, n, n + 1);
         }
     } else if (mode == "win") {
